@@ -399,6 +399,24 @@ def hostile(mon: Mon, ctx, rng, tp, name, payload, expect):
                       f"which is not a JSON object", case)
     elif d.etype != "InvalidPayloadError":
         ctx.violation(f"invalid-payload-wrong-error:{d.key}", f"payload {payload[:40]!r} ({name}) reported as {d.exc!r}, not InvalidPayloadError", case)
+    # the same payload under a decoder class of the caller that changes nothing (a bare subclass of json.JSONDecoder): what is not a JSON object is still
+    # no claims set. NaN / Infinity inside an object are the caller's parser's business then (left open), at the top level they are no object either way.
+    if name in ("nan-object", "infinity-exp", "minus-infinity-nested"):
+        return
+
+    class BareDecoder(json.JSONDecoder):
+        pass
+    d2, ev2 = mon.decode(token, dk, **kw, decoder_cls=BareDecoder)
+    ctx.count("hostile_payloads_with_caller_decoder")
+    ctx.cell("hostile-caller-decoder", tp["kind"], name)
+    case2 = {**case, "decoder_cls": "bare subclass of json.JSONDecoder"}
+    if d2.ok:
+        ctx.violation(f"non-object-claims-returned:{type(d2.value.claims).__name__}:caller-decoder",
+                      f"jwt.decode(decoder_cls=<bare subclass of json.JSONDecoder>) returned claims {d2.value.claims!r} of type {type(d2.value.claims).__name__} "
+                      f"for the payload {payload[:40]!r} ({name}), which is not a JSON object", case2)
+    elif d2.etype != "InvalidPayloadError":
+        ctx.violation(f"invalid-payload-wrong-error:{d2.key}:caller-decoder", f"payload {payload[:40]!r} ({name}) reported as {d2.exc!r} under a caller's decoder class, "
+                      f"not InvalidPayloadError", case2)
 
 
 def run_shard(ctx):
